@@ -245,7 +245,7 @@ def strip_ps(d):
     return d
 
 
-def body_spellings(s, argspec):
+def body_spellings(s, argspec, which='both'):
     """every legacy and new spelling of the same macro / environment signature parses identically."""
     lst = list(argspec)
     with warnings.catch_warnings():
@@ -260,7 +260,7 @@ def body_spellings(s, argspec):
             'std_macro_tuple': lambda db: db.add_context_category('c', macros=[MS.std_macro(('n', argspec))]),
         }
         ref = spec_dump(s, spell['spec_list'])
-        for k, f in spell.items():
+        for k, f in (spell.items() if which in ('both', 'macro') else []):
             got = spec_dump(s, f)
             require(got == ref, 'macro signature given as %s parses differently from arguments_spec_list' % k)
         es = BS + 'begin{n}' + s[2:] + BS + 'end{n}'
@@ -270,8 +270,8 @@ def body_spellings(s, argspec):
             'args_parser_str': lambda db: db.add_context_category('c', environments=[MS.EnvironmentSpec('n', args_parser=argspec)]),
             'std_environment': lambda db: db.add_context_category('c', environments=[MS.std_environment('n', argspec)]),
         }
-        eref = spec_dump(es, espell['spec_list'])
-        for k, f in espell.items():
+        eref = spec_dump(es, espell['spec_list']) if which in ('both', 'env') else None
+        for k, f in (espell.items() if which in ('both', 'env') else []):
             require(spec_dump(es, f) == eref, 'environment signature given as %s parses differently from arguments_spec_list' % k)
     return isinstance(ref, list)
 
@@ -325,14 +325,15 @@ def conditions(tier):
     # signature spellings: argument string symbolic through a selector over all strings over {*,[,{} up to length 3 (4)
     specs = [a for a in ARGSPECS if len(a) <= (3 if quick else 4)]
     for i, a in enumerate(specs):
-        sk = BS + 'n' + '???'
-        conds.append(Cond('spell_%d' % i, 's: str', skel_pre(sk) + ['all(any(c == k for k in "*[]{}a ") for c in s[2:])'],
-                          'body_spellings(s, %r)' % a, timeout=T, twin=False, cost=2,
-                          smoke=[dict(s=BS + 'n' + t) for t in ('*[a', '{a}', '[a]', 'a a', '{}{', '* {')],
-                          descr='argument string %r through every legacy and new spelling; document \\n + 3 characters over {*,[,],{,},a,space}' % a))
+        sk = BS + 'n' + ('??' if quick else '???')
+        for which in ('macro', 'env'):
+            conds.append(Cond('spell_%s_%d' % (which, i), 's: str', skel_pre(sk) + ['all(any(c == k for k in "*[]{}a ") for c in s[2:])'],
+                          'body_spellings(s, %r, %r)' % (a, which), timeout=T, twin=False, cost=2,
+                          smoke=[dict(s=BS + 'n' + t) for t in ('*[a', '{a}', '[a]', 'a a', '{}{', '* {', '**', '*{')],
+                          descr='argument string %r through every legacy and new spelling; document \\n + 2-3 characters over {*,[,],{,},a,space}' % a))
     for i, (a, sk) in enumerate([('{*{', BS + 'n{a}?*{b}?'), ('{*', BS + 'n{a}?*?'), ('[*{', BS + 'n[a]?*{b}'), ('*[{', BS + 'n?*?[a]{b}'),
                                  ('{[', BS + 'n{a}?[b]?'), ('[{', BS + 'n?[a]?{b}'), ('{{', BS + 'n?a?b')]):
-        conds.append(Cond('spellskel_%d' % i, 's: str', skel_pre(sk), 'body_spellings(s, %r)' % a, timeout=T, twin=False, cost=2,
+        conds.append(Cond('spellskel_%d' % i, 's: str', skel_pre(sk), "body_spellings(s, %r, 'macro')" % a, timeout=T, twin=False, cost=2,
                           smoke=[dict(s=skel_fill(sk, ' ')), dict(s=skel_fill(sk, 'x'))],
                           descr='argument string %r, document %r (? = any character)' % (a, sk)))
     return conds
@@ -347,8 +348,8 @@ META = dict(
     bounds=dict(quick='every Unicode string of length <= 2 (tokens: 3) and every start position, for 7 get_latex_nodes variants, '
                       'expression, 2 brace types, optional argument, 4 get_token variants; pinned skeletons with free holes for '
                       'each; environments on skeletons; 13 argument strings over {*,[,{} up to length 3 through 6 macro and 4 '
-                      'environment spellings on all 3-character continuations over {*,[,],{,},a,space}',
-                thorough='length <= 3; 5 brace types; argument strings up to length 4'),
+                      'environment spellings on all 2-character continuations over {*,[,],{,},a,space} and 7 longer skeletons',
+                thorough='length <= 3; 5 brace types; argument strings up to length 4 on 3-character continuations'),
     stubs=['logging disabled', 'deprecation warnings silenced', 'step budget'],
     outside=['strict_braces=False', 'tolerant walkers', 'parsing_state arguments other than those listed'],
     assumptions=['documented difference kept out of the comparison: get_latex_expression sets nodeargd=None on call nodes'],
